@@ -70,4 +70,132 @@ theorem mpz_sub_alloc_safe (s : St) (w u v : Nat) (hs : s.ok = true)
 example : (mpz_sub ex 0 2 1).ok = true ∧ view ((mpz_sub ex 0 2 1).h 0) = ⟨3, -2, [B - 2, B - 1]⟩ := by decide
 example : (mpz_sub ex 1 1 1).ok = true ∧ view ((mpz_sub ex 1 1 1).h 1) = ⟨3, 0, []⟩ := by decide
 
+/-- mpz_add_ui (mpz/aors_ui.h): `MPZ_REALLOC (w, |usize| + 1)` covers the carry store, the one-limb cases and
+    `wp[abs_usize - 1]`; exact sum. -/
+theorem mpz_add_ui_alloc_safe (s : St) (w u : Nat) (v : Nat) (hs : s.ok = true)
+    (hw : OWF (s.h w)) (hu : OWF (s.h u)) (hv : v < B) :
+    Safe s (mpz_add_ui s w u v) w (Mpz.add_ui (view (s.h w)) (view (s.h u)) v) ∧
+    Mpz.toInt (view ((mpz_add_ui s w u v).h w)) = Mpz.toInt (view (s.h u)) + (v : Int) := by
+  have R := aors_ui_refines false s w u v hs hw hu hv
+  have E := Mpz.mpz_add_ui_exact (view (s.h w)) (view (s.h u)) v hu.2 hv
+  refine ⟨R.safe E.2, ?_⟩
+  show Mpz.toInt (view ((aors_ui 1 false s w u v).h w)) = _
+  rw [R.view]; exact E.1
+
+-- (B^2-1) + 1 in place: block grown 2 → 3, carry limb stored at index 2
+example : (mpz_add_ui ex 1 1 1).ok = true ∧ view ((mpz_add_ui ex 1 1 1).h 1) = ⟨3, 3, [0, 0, 1]⟩ := by decide
+-- negative: `MPZ_REALLOC (w, abs_usize)` — the carry store falls outside
+example : (aors_ui 0 false ex 1 1 1).ok = false := by decide
+
+/-- mpz_sub_ui (mpz/aors_ui.h). -/
+theorem mpz_sub_ui_alloc_safe (s : St) (w u : Nat) (v : Nat) (hs : s.ok = true)
+    (hw : OWF (s.h w)) (hu : OWF (s.h u)) (hv : v < B) :
+    Safe s (mpz_sub_ui s w u v) w (Mpz.sub_ui (view (s.h w)) (view (s.h u)) v) ∧
+    Mpz.toInt (view ((mpz_sub_ui s w u v).h w)) = Mpz.toInt (view (s.h u)) - (v : Int) := by
+  have R := aors_ui_refines true s w u v hs hw hu hv
+  have E := Mpz.mpz_sub_ui_exact (view (s.h w)) (view (s.h u)) v hu.2 hv
+  refine ⟨R.safe E.2, ?_⟩
+  show Mpz.toInt (view ((aors_ui 1 true s w u v).h w)) = _
+  rw [R.view]; exact E.1
+
+-- 1 - 5 = -4 (the `abs_usize == 1 && up[0] < vval` case); 0 - 7 into the one-limb destination
+example : (mpz_sub_ui ex 0 2 5).ok = true ∧ view ((mpz_sub_ui ex 0 2 5).h 0) = ⟨2, -1, [4]⟩ := by decide
+example : (mpz_sub_ui ex 0 0 7).ok = true ∧ view ((mpz_sub_ui ex 0 0 7).h 0) = ⟨1, -1, [7]⟩ := by decide
+
+/-- mpz_set (mpz/set.c). -/
+theorem mpz_set_alloc_safe (s : St) (w u : Nat) (hs : s.ok = true) (hw : OWF (s.h w)) (hu : OWF (s.h u)) :
+    Safe s (mpz_set s w u) w (Mpz.set (view (s.h w)) (view (s.h u))) ∧
+    Mpz.toInt (view ((mpz_set s w u).h w)) = Mpz.toInt (view (s.h u)) := by
+  have R := set_refines s w u hs hw hu
+  have E := Mpz.mpz_set_exact (view (s.h w)) (view (s.h u)) hw.2.1 hu.2
+  exact ⟨R.safe E.2, by rw [R.view]; exact E.1⟩
+
+example : (mpz_set ex 0 1).ok = true ∧ view ((mpz_set ex 0 1).h 0) = ⟨2, 2, [B - 1, B - 1]⟩ := by decide
+
+/-- mpz_neg (mpz/neg.c): `u != w` is the comparison of the variables. -/
+theorem mpz_neg_alloc_safe (s : St) (w u : Nat) (hs : s.ok = true) (hw : OWF (s.h w)) (hu : OWF (s.h u)) :
+    Safe s (mpz_neg s w u) w (Mpz.neg (decide (u = w)) (view (s.h w)) (view (s.h u))) ∧
+    Mpz.toInt (view ((mpz_neg s w u).h w)) = -Mpz.toInt (view (s.h u)) := by
+  have R := neg_refines s w u hs hw hu
+  have E := Mpz.mpz_neg_exact (decide (u = w)) (view (s.h w)) (view (s.h u)) hw.2.1 hu.2
+    (by intro h; have : u = w := by simpa using h
+        rw [this])
+  exact ⟨R.safe E.2, by rw [R.view]; exact E.1⟩
+
+example : (mpz_neg ex 0 1).ok = true ∧ view ((mpz_neg ex 0 1).h 0) = ⟨2, -2, [B - 1, B - 1]⟩ := by decide
+example : (mpz_neg ex 1 1).ok = true ∧ view ((mpz_neg ex 1 1).h 1) = ⟨2, -2, [B - 1, B - 1]⟩ := by decide
+
+/-- mpz_abs (mpz/abs.c). -/
+theorem mpz_abs_alloc_safe (s : St) (w u : Nat) (hs : s.ok = true) (hw : OWF (s.h w)) (hu : OWF (s.h u)) :
+    Safe s (mpz_abs s w u) w (Mpz.abs (decide (u = w)) (view (s.h w)) (view (s.h u))) ∧
+    Mpz.toInt (view ((mpz_abs s w u).h w)) = ((Mpz.toInt (view (s.h u))).natAbs : Int) := by
+  have R := abs_refines s w u hs hw hu
+  have E := Mpz.mpz_abs_exact (decide (u = w)) (view (s.h w)) (view (s.h u)) hw.2.1 hu.2
+    (by intro h; have : u = w := by simpa using h
+        rw [this])
+  exact ⟨R.safe E.2, by rw [R.view]; exact E.1⟩
+
+example : (mpz_abs ex 0 1).ok = true ∧ view ((mpz_abs ex 0 1).h 0) = ⟨2, 2, [B - 1, B - 1]⟩ := by decide
+
+/-- mpz_set_ui (mpz/set_ui.c): the store `dest->_mp_d[0] = val` is not preceded by any realloc; it is safe
+    because a well-formed object has at least one limb ("never allocate zero space", realloc.c:31). -/
+theorem mpz_set_ui_alloc_safe (s : St) (w : Nat) (val : Nat) (hs : s.ok = true) (hw : OWF (s.h w)) (hv : val < B) :
+    Safe s (mpz_set_ui s w val) w ⟨(s.h w).buf.alloc, (if val != 0 then 1 else 0 : Nat), [val].take (if val != 0 then 1 else 0)⟩ ∧
+    Mpz.toInt (view ((mpz_set_ui s w val).h w)) = (val : Int) := by
+  have R := set1_refines s w val false hs hw.1 hw.2.1 hv
+  have hm : Mpz.WF ⟨(s.h w).buf.alloc, Mpz.sgn false (if val != 0 then 1 else 0), [val].take (if val != 0 then 1 else 0)⟩ := by
+    have h1 : 1 ≤ (s.h w).buf.alloc := hw.2.1
+    by_cases h : val = 0
+    · subst h; exact ⟨h1, by simp [Mpz.sgn], by simp [Mpz.sgn], by simp [Limbs], by simp⟩
+    · have : (val != 0) = true := by simpa using h
+      simp only [this, if_true, Mpz.sgn]
+      exact ⟨h1, by simpa using h1, by simp, by simp [Limbs, hv], by simp [h]⟩
+  have S := R.safe hm
+  refine ⟨by simpa [mpz_set_ui, Mpz.sgn] using S, ?_⟩
+  show Mpz.toInt (view (((s.store (s.PTR w) 0 val).setSize w _).h w)) = _
+  have := R.view
+  simp only [Mpz.sgn, Bool.false_eq_true, if_false] at this
+  rw [this]
+  by_cases h : val = 0
+  · subst h; simp [Mpz.toInt]
+  · have : (val != 0) = true := by simpa using h
+    simp [this, Mpz.toInt]
+
+-- a one-limb destination that held a two-limb-allocated value; and the WRONG world: a zero-limb block
+example : (mpz_set_ui ex 1 5).ok = true ∧ view ((mpz_set_ui ex 1 5).h 1) = ⟨2, 1, [5]⟩ := by decide
+example : (mpz_set_ui ⟨fun _ => ⟨0, 0, ⟨0, []⟩⟩, true⟩ 0 5).ok = false := by decide
+
+/-- mpz_set_si (mpz/set_si.c), `val` in the range of `long`. -/
+theorem mpz_set_si_alloc_safe (s : St) (w : Nat) (val : Int) (hs : s.ok = true) (hw : OWF (s.h w))
+    (hv : val.natAbs < B) :
+    Safe s (mpz_set_si s w val) w
+      ⟨(s.h w).buf.alloc, Mpz.sgn (decide (val < 0)) (if val.natAbs != 0 then 1 else 0),
+        [val.natAbs].take (if val.natAbs != 0 then 1 else 0)⟩ ∧
+    Mpz.toInt (view ((mpz_set_si s w val).h w)) = val := by
+  have hmod : val.natAbs % B = val.natAbs := Nat.mod_eq_of_lt hv
+  have R := set1_refines s w val.natAbs (decide (val < 0)) hs hw.1 hw.2.1 hv
+  have h1 : 1 ≤ (s.h w).buf.alloc := hw.2.1
+  have hm : Mpz.WF ⟨(s.h w).buf.alloc, Mpz.sgn (decide (val < 0)) (if val.natAbs != 0 then 1 else 0),
+      [val.natAbs].take (if val.natAbs != 0 then 1 else 0)⟩ := by
+    by_cases h : val.natAbs = 0
+    · simp only [h]; exact ⟨h1, by simp [Mpz.sgn], by simp [Mpz.sgn], by simp [Limbs], by simp⟩
+    · have : (val.natAbs != 0) = true := by simpa using h
+      simp only [this, if_true]
+      exact ⟨h1, by rw [Mpz.natAbs_sgn]; exact h1, by simp [Mpz.natAbs_sgn], by simp [Limbs, hv], by simpa using h⟩
+  have S := R.safe hm
+  refine ⟨by simpa [mpz_set_si, hmod] using S, ?_⟩
+  have e : mpz_set_si s w val = (s.store (s.PTR w) 0 val.natAbs).setSize w
+      (Mpz.sgn (decide (val < 0)) (if val.natAbs != 0 then 1 else 0)) := by simp [mpz_set_si, hmod]
+  rw [e, R.view]
+  by_cases h : val.natAbs = 0
+  · have : val = 0 := Int.natAbs_eq_zero.mp h
+    subst this; simp [Mpz.toInt, Mpz.sgn]
+  · have h' : (val.natAbs != 0) = true := by simpa using h
+    simp only [h', if_true, Mpz.toInt, Mpz.sgn]
+    by_cases hn : val < 0
+    · simp [hn]; rw [abs_of_neg hn]; omega
+    · simp [hn]; omega
+
+example : view ((mpz_set_si ex 1 (-5)).h 1) = ⟨2, -1, [5]⟩ ∧ (mpz_set_si ex 1 (-5)).ok = true := by decide
+
 end Mpir.AllocSafe
